@@ -289,21 +289,33 @@ func c14Prop(rt *rapid.T, rec *ev.Recorder) {
 			if removed > 0 && rapid.Bool().Draw(rt, "secondGapAsLargeAsWhatTheReorgRemoved") {
 				gap = removed
 			}
+			wrong := after.nextDC + gap
+			if after.nextDC > 0 {
+				// ... or behind it: 0 again, or the count of the last stored deposit
+				switch rapid.IntRange(0, 3).Draw(rt, "secondBackwards") {
+				case 0:
+					wrong = 0
+				case 1:
+					wrong = after.nextDC - 1
+				}
+			}
 			tip := haltNum
 			if len(surv) > 0 && surv[len(surv)-1].Num >= tip {
 				tip = surv[len(surv)-1].Num
 			}
 			d := genBridge(rt)
-			d.BlockNum, d.BlockPos, d.DepositCount = tip+1, 0, after.nextDC+gap
+			d.BlockNum, d.BlockPos, d.DepositCount = tip+1, 0, wrong
 			bad := blkSpec{Num: tip + 1, Hash: common.BigToHash(big.NewInt(int64(tip) + 7777)), Evs: []evSpec{{Kind: "bridge", Bridge: &d}}}
 			if err := S.process(bad); !errors.Is(err, aggkitsync.ErrInconsistentState) {
-				fatal(rt, "[%s] after the halt was cleared by Reorg(%d) (which removed %d deposits), a deposit with count %d arrives while the store holds %d (the halted block had %d valid deposits before its inconsistent one): ProcessBlock returned %v, want ErrInconsistentState", k, pt, removed, after.nextDC+gap, after.nextDC, countKind(hb.Evs, "bridge")-1, err)
+				fatal(rt, "[%s] after the halt was cleared by Reorg(%d) (which removed %d deposits), a deposit with count %d arrives while the store holds %d (the halted block had %d valid deposits before its inconsistent one): ProcessBlock returned %v, want ErrInconsistentState", k, pt, removed, wrong, after.nextDC, countKind(hb.Evs, "bridge")-1, err)
 			}
 			if !halted() {
-				fatal(rt, "[%s] a second inconsistency (deposit count %d, expected %d) was reported but the syncer is not halted", k, after.nextDC+gap, after.nextDC)
+				fatal(rt, "[%s] a second inconsistency (deposit count %d, expected %d) was reported but the syncer is not halted", k, wrong, after.nextDC)
 			}
 			rec.Class("second_inconsistency_after_a_cleared_halt")
-			if gap == removed {
+			if wrong < after.nextDC {
+				rec.Class("second_inconsistency_is_a_count_that_goes_backwards")
+			} else if gap == removed {
 				rec.Class("second_gap_as_large_as_what_the_clearing_reorg_removed")
 			}
 			break
